@@ -290,13 +290,16 @@ def run(tier: str) -> int:
     with Workdir(PROP) as wd:
         cases = []
         configs = [("shared", "none"), ("shared", "both"), ("shared", "d1"), ("private", "none")]
-        maxlen = 3 if tier == "quick" else 4
+        maxlen = 3   # ~70 calls per state: 342 k histories of length <= 3 per configuration; length 4 (24 M) is sampled below
         for sharing, tunes in configs:
             cs = dict(MaxLen=maxlen, Sharing=sharing, Tunes=tunes, Leak="none", Emit=False, NSlices=1, Slice=0, EmitLen=3)
             stages.model_check(chk, "Lifecycle", cs, ["NoLeak", "UpdateIsRefit"], properties=["ParamsStable"], wd=wd,
                                label=f"A:{sharing}-{tunes}-len{maxlen}")
             nsl = 256 if tier == "quick" else 16
-            sl = [chk.seed % nsl, (chk.seed + 7) % nsl] if tier == "quick" else None
+            sl = [chk.seed % nsl, (chk.seed + 7) % nsl] if tier == "quick" else [(chk.seed + 3 * k) % nsl for k in range(4)]
+            if tier == "thorough":  # longer histories: random walks of the same actions, every invariant checked at every step
+                stages.model_check(chk, "Lifecycle", dict(cs, MaxLen=8), ["NoLeak", "UpdateIsRefit"], wd=wd,
+                                   label=f"A:{sharing}-{tunes}-len8-sim", simulate="num=3000", depth=10, seed=chk.seed, workers=8)
             cs3 = dict(cs, MaxLen=3)
             got = stages.emit_cases(chk, "Lifecycle", cs3, wd=wd, label=f"B:{sharing}-{tunes}-len3", invariants=("EmitHist",),
                                     nslices=nsl, slices=sl)
